@@ -35,6 +35,7 @@ type dbm struct {
 	at     ssa.Instruction
 	guards []guard
 	budget int
+	curSub map[ssa.Value]ssa.Value // while a helper-derived guard is read: its parameters → the call's arguments
 }
 
 func (p *boundsProver) newDBM(at ssa.Instruction) *dbm {
@@ -44,7 +45,22 @@ func (p *boundsProver) newDBM(at ssa.Instruction) *dbm {
 // flatten resolves one value into atoms and a constant: constants fold, x±c unfolds, x+y splits,
 // conversions are transparent, len(x) calls become len atoms, len(make(_, n)) becomes n.
 func (d *dbm) flatten(v ssa.Value, depth int) ([]atom, int64) {
+	if lm, ok := v.(lenMarker); ok {
+		if mk, ok := lm.of.(*ssa.MakeSlice); ok {
+			return d.flatten(mk.Len, depth-1)
+		}
+		if n, ok := d.p.c.constLenOf(lm.of); ok {
+			return nil, n
+		}
+		return []atom{{lenOf: lm.of}}, 0
+	}
+	if r, ok := d.curSub[v]; ok {
+		v = r
+	}
 	v = stripConv(v)
+	if r, ok := d.curSub[v]; ok {
+		v = stripConv(r)
+	}
 	if c, ok := constInt(v); ok {
 		return nil, c
 	}
@@ -71,6 +87,10 @@ func (d *dbm) flatten(v ssa.Value, depth int) ([]atom, int64) {
 		}
 		if call, ok := v.(*ssa.Call); ok {
 			if bi, ok := call.Call.Value.(*ssa.Builtin); ok && bi.Name() == "len" {
+				arg0 := call.Call.Args[0]
+				if r, ok := d.curSub[arg0]; ok {
+					return d.flatten(lenCallOf(r), depth-1)
+				}
 				if mk, ok := call.Call.Args[0].(*ssa.MakeSlice); ok {
 					return d.flatten(mk.Len, depth-1)
 				}
@@ -290,8 +310,10 @@ func (d *dbm) bounds(t dterm, upper bool) []boundSet {
 		if !truth {
 			op = negateOp(op)
 		}
+		d.curSub = g.Sub
 		x, kx := d.norm(vterm(bo.X), 0)
 		y, ky := d.norm(vterm(bo.Y), 0)
+		d.curSub = nil
 		// x + kx  op  y + ky
 		if d.same(x, t) && !d.same(y, t) {
 			if upper {
@@ -338,6 +360,42 @@ func (d *dbm) bounds(t dterm, upper bool) []boundSet {
 						out = append(out, boundSet{all: []boundAlt{{t: dterm{}, k: 1}}})
 					}
 				}
+			}
+		}
+	}
+	// i = strings.Index(s, sub) with i >= 0 implies i + len(sub) <= len(s)
+	if upper && len(t.atoms) == 2 {
+		for i := 0; i < 2; i++ {
+			iv, ln := t.atoms[i], t.atoms[1-i]
+			call, ok := iv.v.(*ssa.Call)
+			if !ok || ln.lenOf == nil {
+				continue
+			}
+			f := calleeObj(call.Common())
+			if f == nil || f.Pkg() == nil || f.Pkg().Path() != "strings" || f.Name() != "Index" || len(call.Call.Args) != 2 {
+				continue
+			}
+			if !d.p.c.sameValue(call.Call.Args[1], ln.lenOf) {
+				continue
+			}
+			// the index must be known non-negative here
+			nn := false
+			for _, g := range d.guards {
+				cond, truth := g.atom()
+				if bo, ok := cond.(*ssa.BinOp); ok && bo.X == ssa.Value(call) {
+					if k, isK := constInt(bo.Y); isK {
+						op := bo.Op
+						if !truth {
+							op = negateOp(op)
+						}
+						if (op == token.GEQ && k >= 0) || (op == token.GTR && k >= -1) || (op == token.NEQ && k == -1) {
+							nn = true
+						}
+					}
+				}
+			}
+			if nn {
+				out = append(out, boundSet{all: []boundAlt{{t: lenterm(call.Call.Args[0])}}})
 			}
 		}
 	}
@@ -399,3 +457,11 @@ func (c *Ctx) constLenOf(base ssa.Value) (int64, bool) {
 	}
 	return int64(len(elts)), true
 }
+
+// lenCallOf builds no instruction: it returns a marker understood by flatten as len(v).
+type lenMarker struct {
+	ssa.Value
+	of ssa.Value
+}
+
+func lenCallOf(v ssa.Value) ssa.Value { return lenMarker{of: v} }
